@@ -160,9 +160,15 @@ class Engine:
                 except Exception:
                     continue
                 ev = e.get("ev")
-                if ev == "reset":
+                if ev == "reset" and "s" not in e:
+                    self.cov["scenario:loop"] += 1
+                elif ev == "reset":
                     s = e.get("s", {})
                     self.cov["scenario:%s/%s" % (s.get("framing", e.get("kind", "-")), s.get("faultKind", "-"))] += 1
+                elif ev == "done":
+                    self.cov["done:%s/%s" % (e.get("res"), (e.get("kind") or "").split(":")[0])] += 1
+                elif ev == "hop":
+                    self.cov["hop:%s/%s" % (get(e, "req.form"), "tunnel" if get(e, "connect.present") else "plain")] += 1
                 elif ev == "charset":
                     self.cov["charset:%s/%s/%s" % (e.get("ct"), e.get("op"), e.get("res"))] += 1
                 elif ev == "hostile":
